@@ -70,7 +70,7 @@ def judge_fce(ctx, what, s, ast, asg, fce, wcase):
     witness = None
     for fa in logic.bool_assignments(all_keys):
         ctx.evaluation()
-        ev = capture(evaluate_format_constraint_tree, tree, E.fc_table(fa))
+        ev = capture(evaluate_format_constraint_tree, tree, E.fc_table(fa, messages=sum(fa.values()) % 2 == 0))  # every other truth assignment with message-less constraints
         if ev[0] != "ok":
             ctx.violation(f"fc-evaluation-raises-{type(ev[1]).__name__}", f"{what}: evaluating the collected expression {fce!r} under {fa} {describe(ev)[:200]}", case=wcase)
             return
